@@ -47,6 +47,13 @@ type DefCase struct {
 	Flow     string          `json:"flow"`    // UUID of the trigger's flow
 	Trigger  string          `json:"trigger"` // manual | manual+call | msg
 	Ops      []DefOp         `json:"ops"`
+	Opts     *DefOpts        `json:"options,omitempty"` // nil: the engine's defaults
+}
+
+// DefOpts: engine options of the feedback family (small step limits: the growth it looks for is exponential in the
+// number of steps, so it must be looked for far below the default 100 steps - there the call cannot return at all)
+type DefOpts struct {
+	MaxSteps, MaxTemplateChars, MaxFieldChars, MaxResultChars int
 }
 
 const (
@@ -305,6 +312,133 @@ func listShape(b []byte) string {
 	return strings.Join(fs, "+")
 }
 
+// ---- 3. flows that read back what they stored (growth per step) --------------------------------------------------
+
+// The step limit makes a sprint finite only if one step costs a bounded amount of work and memory.  A node that is
+// visited again and again and whose router/actions read back what the previous visit stored (a member of a result,
+// the results as JSON, a contact field, the contact's name) must not make any stored or emitted string grow beyond
+// EVERY configured limit and every input: if one does (it then at least doubles per step), the same flow under the
+// default 100 steps cannot return.  The oracle: after the call no string anywhere in the marshalled session or in
+// the sprint's events is longer than `ceiling` = the largest of the configured limits, the 10000 bytes the engine
+// allows for extra, and the size of the definition itself.
+func genFeedback(r *hx.Rand) *DefCase {
+	o := &DefOpts{MaxSteps: r.Range(18, 22), MaxTemplateChars: hx.Pick(r, []int{64, 640, 10000}), MaxFieldChars: hx.Pick(r, []int{64, 640}),
+		MaxResultChars: hx.Pick(r, []int{64, 640})}
+	member := hx.Pick(r, []string{"input", "input", "value", "category", "category_localized", "name", "extra", "extra", "json(results)", "json(run)", "results", "json(contact)", "fields", "contact.name", "legacy_extra"})
+	read := map[string]string{
+		"input": "results.r.input", "value": "results.r.value", "category": "results.r.category", "category_localized": "results.r.category_localized",
+		"name": "results.r.name", "extra": `results.r.extra["0"]`, "json(results)": "json(results)", "json(run)": "json(run)", "results": "results",
+		"json(contact)": "json(contact)", "fields": "fields.x", "contact.name": "contact.name", "legacy_extra": "json(legacy_extra)",
+	}[member]
+	times := r.Range(2, 3)
+	parts := []string{}
+	for i := 0; i < times; i++ {
+		parts = append(parts, read)
+	}
+	parts = append(parts, `"x"`)
+	expr := "@(" + strings.Join(parts, " & ") + ")"
+	cat := map[string]any{"uuid": uuidOf(kCat, 1010), "name": "All", "exit_uuid": uuidOf(kExit, 1011)}
+	other := map[string]any{"uuid": uuidOf(kCat, 1012), "name": "Matched", "exit_uuid": uuidOf(kExit, 1011)}
+	cases := []any{}
+	caseKind := hx.Pick(r, []string{"none", "none", "has_pattern", "has_pattern", "has_text", "has_phrase", "has_any_word"})
+	switch caseKind {
+	case "has_pattern":
+		cases = append(cases, map[string]any{"uuid": uuidOf(kAct, 1015), "type": "has_pattern", "arguments": []any{hx.Pick(r, []string{".*", "(.*)", "(.+)x"})}, "category_uuid": uuidOf(kCat, 1012)})
+	case "has_text":
+		cases = append(cases, map[string]any{"uuid": uuidOf(kAct, 1015), "type": "has_text", "arguments": []any{}, "category_uuid": uuidOf(kCat, 1012)})
+	case "has_phrase":
+		cases = append(cases, map[string]any{"uuid": uuidOf(kAct, 1015), "type": "has_phrase", "arguments": []any{"x"}, "category_uuid": uuidOf(kCat, 1012)})
+	case "has_any_word":
+		cases = append(cases, map[string]any{"uuid": uuidOf(kAct, 1015), "type": "has_any_word", "arguments": []any{"x xx"}, "category_uuid": uuidOf(kCat, 1012)})
+	}
+	router := map[string]any{"type": "switch", "operand": expr, "result_name": "r", "cases": cases,
+		"categories": []any{cat, other}, "default_category_uuid": uuidOf(kCat, 1010)}
+	where := "router-operand"
+	node := map[string]any{"uuid": uuidOf(kNode, 101), "router": router,
+		"exits": []any{map[string]any{"uuid": uuidOf(kExit, 1011), "destination_uuid": uuidOf(kNode, 101)}}}
+	acts := []any{}
+	if r.Chance(1, 3) {
+		// the feedback goes through an action instead (the router still stores what it is given)
+		where = hx.Pick(r, []string{"set_run_result", "set_contact_field", "set_contact_name", "send_msg"})
+		switch where {
+		case "set_run_result":
+			acts = append(acts, map[string]any{"uuid": uuidOf(kAct, 1016), "type": "set_run_result", "name": "r", "value": expr, "category": expr})
+		case "set_contact_field":
+			acts = append(acts, map[string]any{"uuid": uuidOf(kAct, 1016), "type": "set_contact_field", "field": map[string]any{"key": "x", "name": "X"}, "value": expr})
+		case "set_contact_name":
+			acts = append(acts, map[string]any{"uuid": uuidOf(kAct, 1016), "type": "set_contact_name", "name": expr})
+		case "send_msg":
+			acts = append(acts, map[string]any{"uuid": uuidOf(kAct, 1016), "type": "send_msg", "text": expr, "quick_replies": []any{expr}})
+		}
+		if r.Bool() {
+			router["operand"] = "@(" + read + ")"
+		}
+	}
+	node["actions"] = acts
+	c := &DefCase{Kind: "definition", Scenario: fmt.Sprintf("feedback:%s:%s:x%d:%s", where, member, times, caseKind), Flow: uuidOf(kFlow, 1), Trigger: "manual", Opts: o}
+	c.Assets = defAssetsWith([]any{defFlow(1, "messaging", []any{node})}, map[string]any{"fields": []any{map[string]any{"uuid": uuidOf(kAct, 1099), "key": "x", "name": "X", "type": "text"}}})
+	return c
+}
+
+func feedbackCorpus() []*DefCase {
+	mk := func(sc, operand string, cases []any) *DefCase {
+		cat := map[string]any{"uuid": uuidOf(kCat, 1010), "name": "All", "exit_uuid": uuidOf(kExit, 1011)}
+		other := map[string]any{"uuid": uuidOf(kCat, 1012), "name": "Matched", "exit_uuid": uuidOf(kExit, 1011)}
+		node := map[string]any{"uuid": uuidOf(kNode, 101), "actions": []any{},
+			"router": map[string]any{"type": "switch", "operand": operand, "result_name": "r", "cases": cases, "categories": []any{cat, other}, "default_category_uuid": uuidOf(kCat, 1010)},
+			"exits":  []any{map[string]any{"uuid": uuidOf(kExit, 1011), "destination_uuid": uuidOf(kNode, 101)}}}
+		return &DefCase{Kind: "definition", Scenario: sc, Flow: uuidOf(kFlow, 1), Trigger: "manual",
+			Opts:   &DefOpts{MaxSteps: 20, MaxTemplateChars: 10000, MaxFieldChars: 640, MaxResultChars: 640},
+			Assets: defAssetsWith([]any{defFlow(1, "messaging", []any{node})}, nil)}
+	}
+	return []*DefCase{
+		mk("feedback:router-operand:input:x2:none", `@(results.r.input & results.r.input & "x")`, []any{}),
+		mk("feedback:router-operand:extra:x2:has_pattern", `@(results.r.extra["0"] & results.r.extra["0"] & "x")`,
+			[]any{map[string]any{"uuid": uuidOf(kAct, 1015), "type": "has_pattern", "arguments": []any{".*"}, "category_uuid": uuidOf(kCat, 1012)}}),
+	}
+}
+
+// longestString: the longest string leaf (in runes) of a JSON document and the path to it
+func longestString(raw []byte) (int, string) {
+	var v any
+	if json.Unmarshal(raw, &v) != nil {
+		return 0, ""
+	}
+	best, bestPath := 0, ""
+	var walk func(x any, path string)
+	walk = func(x any, path string) {
+		switch t := x.(type) {
+		case string:
+			if n := len([]rune(t)); n > best {
+				best, bestPath = n, path
+			}
+		case []any:
+			for _, e := range t {
+				walk(e, path+"[]")
+			}
+		case map[string]any:
+			for k, e := range t {
+				if len(k) > 40 {
+					k = "<key>"
+				}
+				walk(e, path+"."+k)
+			}
+		}
+	}
+	walk(v, "")
+	return best, bestPath
+}
+
+func defAssetsWith(flowsJSON []any, more map[string]any) json.RawMessage {
+	var m map[string]any
+	json.Unmarshal(defAssets(flowsJSON), &m)
+	for k, v := range more {
+		m[k] = v
+	}
+	b, _ := json.Marshal(m)
+	return b
+}
+
 // defCorpus: the hand-written cases of the hunt findings
 func defCorpus() []*DefCase {
 	var out []*DefCase
@@ -350,7 +484,11 @@ func defCorpus() []*DefCase {
 
 func runDefCase(prop string, c *DefCase, res *hx.Result) {
 	input := map[string]any{"kind": "definition", "scenario": c.Scenario, "assets": c.Assets, "flow": c.Flow, "trigger": c.Trigger, "ops": c.Ops}
-	fail := func(class, detail string) { res.Fail(prop+":"+class+":"+c.Scenario, input, detail) }
+	if c.Opts != nil {
+		input["options"] = c.Opts
+	}
+	defFailed = false
+	fail := func(class, detail string) { defFailed = true; res.Fail(prop+":"+class+":"+c.Scenario, input, detail) }
 	key, _ := json.Marshal(input)
 	load := func(raw json.RawMessage) (flows.SessionAssets, bool) {
 		src, err := static.NewSource(raw)
@@ -379,6 +517,30 @@ func runDefCase(prop string, c *DefCase, res *hx.Result) {
 		return
 	}
 	eng := engine.NewBuilder().Build()
+	ceiling := 0
+	if c.Opts != nil {
+		eng = engine.NewBuilder().WithMaxStepsPerSprint(c.Opts.MaxSteps).WithMaxTemplateChars(c.Opts.MaxTemplateChars).
+			WithMaxFieldChars(c.Opts.MaxFieldChars).WithMaxResultChars(c.Opts.MaxResultChars).Build()
+		ceiling = max(c.Opts.MaxTemplateChars, c.Opts.MaxFieldChars, c.Opts.MaxResultChars, 10000, len(c.Assets))
+	}
+	// growth: no string of the session or of the sprint's events is longer than every limit and every input
+	grew := func(s flows.Session, sp flows.Sprint) bool {
+		if ceiling == 0 {
+			return false
+		}
+		res.OracleChecks++
+		evs, _ := json.Marshal(map[string]any{"events": sp.Events()})
+		for _, doc := range [][]byte{mustJSON(s), evs} {
+			if n, path := longestString(doc); n > ceiling {
+				parts := strings.SplitN(c.Scenario, ":", 3)
+				defFailed = true
+				res.Fail(fmt.Sprintf("%s:unbounded-growth:%s:%s", prop, strings.Join(parts[:2], ":"), path), input,
+					fmt.Sprintf("after a sprint of at most %d steps the string at %s has %d characters; the largest configured limit / input is %d: what a step stores grows with every visit, so the step limit does not bound the call", c.Opts.MaxSteps, path, n, ceiling))
+				return true
+			}
+		}
+		return false
+	}
 	contact, err := flows.NewContact(sa, flows.ContactUUID(uuids.NewV4()), flows.ContactID(7), "Bob", "eng",
 		flows.ContactStatusActive, nil, time.Date(2019, 1, 1, 0, 0, 0, 0, time.UTC), nil, nil, nil, nil, nil, assets.PanicOnMissing)
 	if err != nil {
@@ -396,7 +558,8 @@ func runDefCase(prop string, c *DefCase, res *hx.Result) {
 		trig = tb.Manual().Build()
 	}
 	var s flows.Session
-	p, h := guarded(func() { s, _, err = eng.NewSession(sa, trig) })
+	var sp flows.Sprint
+	p, h := guarded(func() { s, sp, err = eng.NewSession(sa, trig) })
 	res.OracleChecks++
 	switch {
 	case h:
@@ -412,6 +575,9 @@ func runDefCase(prop string, c *DefCase, res *hx.Result) {
 		return
 	}
 	res.Dist("definition:ran:" + strings.SplitN(c.Scenario, ":", 2)[0])
+	if grew(s, sp) {
+		return
+	}
 	for i := range c.Ops {
 		op := &c.Ops[i]
 		if s.Status() != flows.SessionStatusWaiting {
@@ -447,7 +613,7 @@ func runDefCase(prop string, c *DefCase, res *hx.Result) {
 			r = resumes.NewMsg(nil, nil, flows.NewMsgIn(flows.MsgUUID(uuids.NewV4()), urns.NilURN, nil, op.Text, nil))
 		}
 		var rerr error
-		p, h := guarded(func() { _, rerr = s.Resume(r) })
+		p, h := guarded(func() { sp, rerr = s.Resume(r) })
 		res.OracleChecks++
 		switch {
 		case h:
@@ -466,18 +632,45 @@ func runDefCase(prop string, c *DefCase, res *hx.Result) {
 				fail("rejected-session-changed", "session JSON differs after a rejected resume")
 				return
 			}
+		default:
+			if grew(s, sp) {
+				return
+			}
 		}
 	}
 	res.Eval(string(key), true)
 }
 
+// runFeedback runs a feedback case with growing step limits (6, 8, ... up to the case's own) and stops at the first
+// failure: what it looks for grows exponentially with the number of steps, so it is caught while it is still small
+// (the failing input records the step limit at which it was caught)
+var defFailed bool // the last runDefCase reported a failure
+
+func runFeedback(prop string, c *DefCase, res *hx.Result) {
+	top := c.Opts.MaxSteps
+	for st := 6; st <= top && !hung; st += 2 {
+		c.Opts.MaxSteps = st
+		if runDefCase(prop, c, res); defFailed {
+			return
+		}
+	}
+}
+
 func defStream(prop string, r *hx.Rand, n int, res *hx.Result) {
-	for i, c := range defCorpus() {
+	corpus := defCorpus()
+	if prop == "C05" {
+		corpus = append(corpus, feedbackCorpus()...)
+	}
+	for i, c := range corpus {
 		if prop == "C10" && strings.HasPrefix(c.Scenario, "odd-list") {
 			continue
 		}
 		resetSources(int64(9000 + i))
-		runDefCase(prop, c, res)
+		if c.Opts != nil {
+			runFeedback(prop, c, res)
+		} else {
+			runDefCase(prop, c, res)
+		}
 		if hung {
 			return
 		}
@@ -485,10 +678,13 @@ func defStream(prop string, r *hx.Rand, n int, res *hx.Result) {
 	for i := 0; i < n && !hung; i++ {
 		rr := r.Fork(fmt.Sprintf("def%d", i))
 		resetSources(int64(950000 + i))
-		if prop == "C10" || i%2 == 0 {
+		switch {
+		case prop == "C10" || i%3 == 0:
 			runDefCase(prop, genTypeChange(rr), res)
-		} else {
+		case i%3 == 1:
 			runDefCase(prop, genListCase(rr), res)
+		default:
+			runFeedback(prop, genFeedback(rr), res)
 		}
 	}
 }
